@@ -78,6 +78,7 @@ fn compile(files: &[(String, String)]) -> Outcome {
         let p = beff_core::extract(&mut man, entry);
         if !p.errors.is_empty() {
             for e in &p.errors {
+                if std::env::var("FRONT_DIAG").is_ok() { eprintln!("DIAGNOSTIC: {:?}", e.message); }
                 match &e.loc {
                     Location::Full(l) => {
                         let Some(len) = lens.get(&l.file_name.to_string()) else {
@@ -807,11 +808,18 @@ fn exclude_family(only: Option<u64>, thin: u64) {
                 let mut man = Fm { fs };
                 let p = beff_core::extract(&mut man, EntryPoints { parser_entry_point: BffFileName::new("entry.ts".into()),
                     settings: BeffUserSettings { string_formats: BTreeSet::new(), number_formats: BTreeSet::new() } });
-                if !p.errors.is_empty() { return None; }
-                Some(p.validators)
+                if !p.errors.is_empty() {
+                    // a diagnostic is an answer, except one that says a helper type of the result itself is not defined
+                    let lost: Vec<String> = p.errors.iter().map(|e| format!("{:?}", e.message)).filter(|m| m.contains("reference not found")).collect();
+                    if !lost.is_empty() { return Some(Err(lost[0].clone())); }
+                    return None;
+                }
+                Some(Ok(p.validators))
             })
         });
-        let vals = match res { Ok(Some(v)) => v, Ok(None) => { skipped += 1; continue; } Err(_) => { failed.push(cases); if first.is_none() { first = Some(format!("{{\"case\":{},\"input\":{:?},\"observed\":\"the compiler PANICS\",\"required\":\"a type\"}}", cases, src)); } continue; } };
+        let vals = match res { Ok(Some(Ok(v))) => v,
+            Ok(Some(Err(m))) => { failed.push(cases); if first.is_none() { first = Some(format!("{{\"case\":{},\"input\":{:?},\"observed\":{:?},\"required\":\"every helper type the result refers to is defined\"}}", cases, src, m)); } continue; }
+            Ok(None) => { skipped += 1; continue; } Err(_) => { failed.push(cases); if first.is_none() { first = Some(format!("{{\"case\":{},\"input\":{:?},\"observed\":\"the compiler PANICS\",\"required\":\"a type\"}}", cases, src)); } continue; } };
         let Some(x) = vals.iter().find(|s| match &s.name.ty { beff_core::RuntypeName::Address(a) => a.name == "X", _ => false }) else { skipped += 1; continue };
         let mut bad: Option<String> = None;
         for v in &values {
